@@ -54,8 +54,9 @@ def overriding_pairs(r):
          "parameters": {"p": 1, "q": "%p%"},
          "services": {"s": {"constructor": "NewA", "arguments": [1, "@t"], "calls": [["SetX", [1]]], "tags": ["a"], "fields": {"F": 1, "G": 2},
                             "getter": "GetS", "type": "*T", "scope": "shared"},
-                      "t": {"value": "Value"}},
+                      "t": {"value": "Value"}, "viaalias": {"constructor": "al.NewA", "arguments": ["!value x.Value"], "type": "*al.T", "getter": "GetVia"}},
          "decorators": [{"tag": "a", "decorator": "Decorate"}]}
+    a["parameters"]["viafn"] = "%fn(\"HOME\")%"
     b_variants = [
         {"services": {"s": {"arguments": []}}},
         {"services": {"s": {"arguments": [2]}}},
@@ -82,6 +83,8 @@ def overriding_pairs(r):
         {"decorators": [{"tag": "a", "decorator": "Wrap", "arguments": [1]}]},
         {"decorators": []},
         {"version": "1.2.0"},
+        {"meta": {"functions": {"fn": "strings.ToUpper"}}},
+        {"meta": {"imports": {"x": "example.com/lib/sub"}}},
         {},
     ]
     out = []
@@ -100,6 +103,11 @@ def overriding_pairs(r):
     a3["services"]["s"]["todo"] = True
     a3["services"]["s"]["must_getter"] = False
     a3["meta"]["default_must_getter"] = False
+    # the version gate uses the LAST declared version (the build is 1.2.3: 1.2.x passes, 1.3.x does not)
+    for v1, v2 in [("1.2.0", "1.3.0"), ("1.3.0", "1.2.0"), ("1.1.0", "1.2.9"), ("2.0.0", "1.2.1")]:
+        out.append([dict(a2, version=v1), {"version": v2}])
+        out.append([{"version": v1}, dict(a2, version=v2)])
+        out.append([{"version": v1}, a2, {"version": v2}])
     for b in [{"services": {"s": {"todo": True}}}, {"services": {"s": {"todo": False}}}, {"services": {"s": {"must_getter": False}}}, {"services": {"s": {"must_getter": True}}},
               {"meta": {"default_must_getter": False}}, {"meta": {"default_must_getter": True}}, {"meta": {"pkg": "three"}}, {"meta": {}}, {"parameters": {"zz": 1}}, {}]:
         for base in (a2, a3):
@@ -126,10 +134,15 @@ def run(tier, seed, replay):
         if rr.random() < 0.3:
             parts.insert(rr.randrange(len(parts) + 1), {})           # the empty file is the identity
         # file names / patterns chosen so that glob order, pattern order and lexical order of cleaned paths all differ
-        style = rr.choice(["one-glob", "dirs", "multi-pattern", "unclean"])
+        style = rr.choice(["one-glob", "dirs", "multi-pattern", "unclean", "commas"])
         if style == "one-glob":
             names = ["cfg/%02d.yaml" % i for i in range(len(parts))]
             pats = ["cfg/*.yaml"]
+        elif style == "commas":
+            # a pattern is one pattern, whatever punctuation it contains (commas, spaces, equal signs)
+            cut = rr.randint(1, len(parts) - 1)
+            names = ["env,prod/%02d.yaml" % i for i in range(cut)] + ["k=v, w/%d,%d.yaml" % (i, i) for i in range(len(parts) - cut)]
+            pats = ["env,prod/*.yaml"] + ["k=v, w/%d,%d.yaml" % (i, i) for i in range(len(parts) - cut)]
         elif style == "dirs":
             dirs = ["a.d", "a", "a-b", "a0", "B", "_z"]
             order = sorted(dirs[:len(parts)] if len(parts) <= len(dirs) else dirs, key=lambda d: ("cfg/%s/x.yaml" % d).encode())
